@@ -65,6 +65,7 @@ def fault_atoms():
         [["send_bad", "struct", "inline"]],
         [["sub_raise", "msg", 1], ["status"]],
         [["sub_raise", "conn", 1]],
+        [["rst", "timeout"]], [["rst", "oserror"]],
         [["fin"], ["net", "refuse", 0.0]],
         [["rst"], ["net", "refuse", 0.0], ["net", "refuse", 0.0]],
         [["reset"]],                                   # public reset_connection() (heartbeat)
